@@ -31,7 +31,7 @@ Is(k) == l <= N /\ R.k = k
 Next1 == l' = l + 1
 
 SeqToSet(s) == {s[i] : i \in 1..Len(s)}
-Without(s, D) == SelectSeq(s, LAMBDA x : x \notin D)
+Without(s, D) == IF cfg.kind = "bc" THEN s ELSE SelectSeq(s, LAMBDA x : x \notin D)
 Drop1(f, k) == [x \in DOMAIN f \ {k} |-> f[x]]
 Put(f, k, v) == [x \in DOMAIN f \cup {k} |-> IF x = k THEN v ELSE f[x]]
 
@@ -42,7 +42,7 @@ Init ==
   /\ l = 1
   /\ cfg = [kind |-> "q", cap |-> 0, kf |-> {}]
   /\ buf = <<>> /\ tx = Empty /\ rx = Empty /\ disc = {} /\ once = FALSE
-  /\ out = {} /\ gone = {} /\ acked = {} /\ pend = Empty /\ devs = {} /\ aux = Aux0
+  /\ out = {} /\ gone = {} /\ cur = Empty /\ pend = Empty /\ devs = {} /\ aux = Aux0
 
 \* ---- a new history ------------------------------------------------------
 New ==
@@ -51,7 +51,7 @@ New ==
   /\ buf' = <<>>
   /\ tx' = [h \in SeqToSet(R.tx) |-> "live"]
   /\ rx' = [h \in SeqToSet(R.rx) |-> "live"]
-  /\ disc' = {} /\ once' = FALSE /\ out' = {} /\ gone' = {} /\ acked' = {}
+  /\ disc' = {} /\ once' = FALSE /\ out' = {} /\ gone' = {} /\ cur' = [h \in SeqToSet(R.rx) |-> 0]
   /\ pend' = Empty /\ devs' = {} /\ aux' = Aux0
   /\ Next1
 
@@ -62,7 +62,9 @@ New ==
 \* `rxAfter` is the receiver map after the current record's own effect.
 CanDestroy(D, rxAfter) ==
   /\ D \subseteq SeqToSet(buf)
-  /\ D # {} => {h \in DOMAIN rxAfter : rxAfter[h] = "live"} = {}
+  /\ IF cfg.kind = "bc"
+       THEN D \cap gone = {}      \* broadcast: receivers get clones; the stored original dies once, whenever
+       ELSE D # {} => {h \in DOMAIN rxAfter : rxAfter[h] = "live"} = {}
 
 \* ---- call / ret -----------------------------------------------------------
 Call ==
@@ -73,7 +75,7 @@ Call ==
   /\ (R.op \in SendOps => R.h \in DOMAIN tx)
   /\ (R.op \in RecvOps => R.h \in DOMAIN rx)
   /\ pend' = Put(pend, R.o, NewOp(R.h, R.op, R.vs, IF R.op \in SingleRecv THEN 1 ELSE R.max, R.fut))
-  /\ UNCHANGED <<cfg, buf, tx, rx, disc, once, out, gone, acked>>
+  /\ UNCHANGED <<cfg, buf, tx, rx, disc, once, out, gone, cur>>
   /\ Next1
 
 \* Future polled, reported Pending.
@@ -82,7 +84,7 @@ PollPending ==
   /\ R.o \in DOMAIN pend /\ pend[R.o].fut
   /\ pend' = [pend EXCEPT ![R.o] = [@ EXCEPT !.started = TRUE, !.woken = FALSE]]
   /\ aux' = IF IsRecv(R.o) THEN [aux EXCEPT !.hoard = 0] ELSE aux
-  /\ UNCHANGED <<cfg, buf, tx, rx, disc, once, out, gone, acked, devs>>
+  /\ UNCHANGED <<cfg, buf, tx, rx, disc, once, out, gone, cur, devs>>
   /\ Next1
 
 Wake ==
@@ -93,7 +95,7 @@ Wake ==
   /\ aux' = IF R.o \in DOMAIN pend
               THEN IF IsSend(R.o) THEN [aux EXCEPT !.swS = FALSE] ELSE [aux EXCEPT !.swR = FALSE]
               ELSE aux
-  /\ UNCHANGED <<cfg, buf, tx, rx, disc, once, out, gone, acked, devs>>
+  /\ UNCHANGED <<cfg, buf, tx, rx, disc, once, out, gone, cur, devs>>
   /\ Next1
 
 \* The operation returns (thread call returns / future reports Ready).
@@ -124,7 +126,7 @@ Ret ==
      /\ buf' = Without(buf, extra)
      /\ gone' = gone \cup extra
      /\ pend' = Drop1(pend, R.o)
-  /\ UNCHANGED <<cfg, tx, rx, disc, once, acked>>
+  /\ UNCHANGED <<cfg, tx, rx, disc, once, cur>>
   /\ Next1
 
 \* A future is dropped before it reported Ready.
@@ -163,7 +165,7 @@ Cancel ==
   /\ aux' = IF pend[R.o].woken
               THEN IF IsSend(R.o) THEN [aux EXCEPT !.swS = TRUE] ELSE [aux EXCEPT !.swR = TRUE]
               ELSE aux
-  /\ UNCHANGED <<cfg, tx, rx, disc, once, acked>>
+  /\ UNCHANGED <<cfg, tx, rx, disc, once, cur>>
   /\ Next1
 
 \* ---- handle life cycle --------------------------------------------------
@@ -184,7 +186,7 @@ Close ==
      /\ CanDestroy(dr, rxA)
      /\ buf' = Without(buf, dr)
      /\ gone' = gone \cup dr
-  /\ UNCHANGED <<cfg, disc, once, out, acked, pend>>
+  /\ UNCHANGED <<cfg, disc, once, out, cur, pend>>
   /\ Next1
 
 HDrop ==
@@ -201,8 +203,8 @@ HDrop ==
      /\ buf' = Without(buf, dr)
      /\ gone' = gone \cup dr
      \* C09: once the last handle is gone nothing is left inside the channel.
-     /\ (DOMAIN txA = {} /\ DOMAIN rxA = {}) => Without(buf, dr) = <<>>
-  /\ UNCHANGED <<cfg, disc, once, out, acked, pend>>
+     /\ (DOMAIN txA = {} /\ DOMAIN rxA = {} /\ cfg.kind # "bc") => Without(buf, dr) = <<>>
+  /\ UNCHANGED <<cfg, disc, once, out, cur, pend>>
   /\ Next1
 
 Clone ==
@@ -220,7 +222,9 @@ Clone ==
        ELSE /\ \E st \in (IF rx[R.h] = "live" THEN {"live"} ELSE {"live", "closed"}) :
                     rx' = Put(rx, R.nh, st)
             /\ UNCHANGED <<tx, aux>>
-  /\ UNCHANGED <<cfg, buf, disc, once, out, gone, acked, pend, devs>>
+  \* C07: a clone starts at its parent's current position
+  /\ cur' = IF R.h \in DOMAIN rx THEN Put(cur, R.nh, cur[R.h]) ELSE cur
+  /\ UNCHANGED <<cfg, buf, disc, once, out, gone, pend, devs>>
   /\ Next1
 
 \* to_sync / to_async: the same handle in another flavour.
@@ -233,7 +237,8 @@ Conv ==
        ELSE /\ rx' = Put(Drop1(rx, R.h), R.nh, rx[R.h])
             /\ disc' = IF R.h \in disc THEN (disc \ {R.h}) \cup {R.nh} ELSE disc
             /\ UNCHANGED tx
-  /\ UNCHANGED <<cfg, buf, once, out, gone, acked, pend>>
+  /\ cur' = IF R.h \in DOMAIN rx THEN Put(cur, R.nh, cur[R.h]) ELSE cur
+  /\ UNCHANGED <<cfg, buf, once, out, gone, pend>>
   /\ Next1
 
 \* ---- observers ------------------------------------------------------------
@@ -283,6 +288,16 @@ Quiesce ==
   /\ UNCHANGED chanVars
   /\ Next1
 
+\* Broadcast only: the ring destroys a stored original when its slot is reused,
+\* which can happen inside any operation of the sender; the receivers hold clones.
+StrayDrop ==
+  /\ Is("stray_drop")
+  /\ cfg.kind = "bc"
+  /\ CanDestroy(SeqToSet(R.dr), rx)
+  /\ gone' = gone \cup SeqToSet(R.dr)
+  /\ UNCHANGED <<cfg, buf, tx, rx, disc, once, out, cur, pend, devs, aux>>
+  /\ Next1
+
 \* The driver abandoned the program here (informational; the preceding quiesce
 \* record carries the obligation).
 Hung == Is("hung") /\ UNCHANGED <<chanVars, devs, aux>> /\ Next1
@@ -291,7 +306,7 @@ Hung == Is("hung") /\ UNCHANGED <<chanVars, devs, aux>> /\ Next1
 End ==
   /\ Is("end")
   /\ DOMAIN tx = {} /\ DOMAIN rx = {} /\ DOMAIN pend = {}
-  /\ buf = <<>>
+  /\ cfg.kind = "bc" \/ buf = <<>>
   /\ \A d \in devs : PrintT(<<"DEV", d>>)
   /\ UNCHANGED <<chanVars, devs, aux>>
   /\ Next1
@@ -327,7 +342,7 @@ LinStep ==
   /\ UNCHANGED l
 
 Next ==
-  \/ New \/ PollPending \/ Clone \/ Quiesce \/ Hung \/ End
+  \/ New \/ PollPending \/ Clone \/ Quiesce \/ Hung \/ End \/ StrayDrop
   \/ Wake \/ Cancel
   \/ (Call \/ Ret \/ Close \/ HDrop \/ Conv \/ Obs) /\ UNCHANGED <<devs, aux>>
   \/ LinStep
